@@ -71,8 +71,11 @@ CONSTANTS Spaces,          \* which factored case spaces: subset of {"verify", "
                            \* "custom": only the transport built for `keepalive` # 2 or srv:// does (as found)
           UnixKeepalive,   \* "honoured": `keepalive` also configures the transport of a unix: upstream (repaired)
                            \* "ignored" : the unix transport keeps net/http's defaults (as found)
-          HealthTrust      \* "rule"  : the health-check client trusts what the rule trusts (repaired)
+          HealthTrust,     \* "rule"  : the health-check client trusts what the rule trusts (repaired)
                            \* "system": ca_certificates / tls_client are not handed to it (as found)
+          UpgradeSNI       \* "always"  : the hijacker transport names the upstream in its ClientHello (repaired)
+                           \* "verified": only when it is going to verify - an upgrade request through a rule
+                           \*             with insecure_skip_verify is sent without SNI (as found)
 
 -----------------------------------------------------------------------------
 (* 1. certificates and what crypto/x509 makes of them *)
@@ -430,7 +433,8 @@ Dial(k) ==
 Hello(k) ==
     /\ pc = "run" /\ fl[k].pc = "hello"
     /\ LET c == fl[k].c
-           hello == [conns[c] EXCEPT !.tls = TRUE, !.sni = SniOf(UpOf(k)), !.offer = Offer(TrOf(k), fl[k].hij)]
+           named == ~(fl[k].hij /\ TrOf(k).skip /\ UpgradeSNI = "verified")      \* getTransportDialTLS sets ServerName itself
+           hello == [conns[c] EXCEPT !.tls = TRUE, !.sni = IF named THEN SniOf(UpOf(k)) ELSE "", !.offer = Offer(TrOf(k), fl[k].hij)]
        IN  IF B.cert = "none"          \* the backend does not speak TLS
            THEN SetConn(c, [hello EXCEPT !.st = "closed", !.hs = "failed"]) /\ Finish(k, fl[k], "fail", 502, {"not-tls"}, "")
            ELSE IF B.mute              \* no ServerHello ever: TLSHandshakeTimeout, if the transport has one
@@ -501,7 +505,9 @@ Release(k) ==
 ClientGone(k) ==
     /\ pc = "run" /\ fl[k].pc = "held"
     /\ LET c == fl[k].c
-       IN  SetConn(c, [conns[c] EXCEPT !.st = IF @ = "never" THEN "never" ELSE "closed", !.hs = IF @ = "pending" THEN "failed" ELSE @])
+           \* over h2 only the stream is reset; the connection goes on serving (unless keep-alives are off)
+           stays == conns[c].proto = "h2" /\ fl[k].phase = "response" /\ ~TrOf(k).disableKA
+       IN  SetConn(c, [conns[c] EXCEPT !.st = IF @ = "never" THEN "never" ELSE IF stays THEN "idle" ELSE "closed", !.hs = IF @ = "pending" THEN "failed" ELSE @])
     /\ Finish(k, fl[k], "held", 499, {"canceled"}, fl[k].phase)
     /\ UNCHANGED <<cfg, pc, i, j, cur, ups, hosts, health, batch>>
 
@@ -587,7 +593,9 @@ SilentBackendBounded ==
           /\ outs[b][k].res # "" => outs[b][k].wait <= DialBoundOf(cfg.script[b][k].rule) + 10000
 \* ... and a held request leaves nothing behind once the client is gone
 HeldIsReleased ==
-    \A b \in 1..Len(outs) : \A k \in 1..Len(outs[b]) : outs[b][k].res = "held" /\ outs[b][k].c # 0 => conns[outs[b][k].c].st \in {"closed", "never"}
+    \A b \in 1..Len(outs) : \A k \in 1..Len(outs[b]) : outs[b][k].res = "held" /\ outs[b][k].c # 0 =>
+        \/ conns[outs[b][k].c].st \in {"closed", "never"}
+        \/ conns[outs[b][k].c].proto = "h2" /\ conns[outs[b][k].c].st \in {"idle", "busy"}      \* the stream was reset, the connection lives on
 \* liveness (LiveSpec): without any help from the client every request is answered, unless a backend sits on it
 EventuallyAnswered == <>(pc \in {"end", "refused"} \/ \E k \in DOMAIN fl : fl[k].pc = "held")
 
